@@ -232,6 +232,10 @@ def lockmap(chk, P):
     if not f:
         return
     dom = f.dominators()
+    ldecls = {d["var"]: d for _, _, d in f.events(lambda d: d["k"] == "decl")}
+    LL = {v for v, d in ldecls.items() if sx_find(d.get("init") or [], lambda y: y[0] == "mem" and _last(y[2]) == "mobilizerLockLevel")}
+    NQ = {v for v, d in ldecls.items() if sx_find(d.get("init") or [], lambda y: y[0] == "mem" and _last(y[2]) == "nQInUse")}
+    chk.judge(len(LL) == 1 and len(NQ) >= 1, "LOCKMAP", "lock-level-and-q-count-variables", f.loc, "lock level read from mobilizerLockLevel into %s; q count from nQInUse into %s" % (sorted(LL), sorted(NQ)))
     asg = [(b, i, e) for b, i, e in f.events(lambda e: e["k"] == "assign" and _memname(e["lhs"]) in ("qMethod", "uMethod", "udotMethod"))]
     # chained assignment a = b = c = Zero shows as nested assigns; collect every (field, enumerator)
     def pairs(e):
@@ -243,7 +247,7 @@ def lockmap(chk, P):
                 out.append((fl, x))
         return out
     for level, table in sorted(LOCKMAP.items()):
-        gb = guard_blocks(f, lambda c, level=level: isinstance(c, list) and c[0] == "op" and c[1] == "==" and var_of(c[2]) == "lockLevel" and ("SimTK::Motion::" + level) in sx_enums(c[3]), 0)
+        gb = guard_blocks(f, lambda c, level=level: isinstance(c, list) and c[0] == "op" and c[1] == "==" and var_of(c[2]) in LL and ("SimTK::Motion::" + level) in sx_enums(c[3]), 0)
         chk.judge(len(gb) == 1, "LOCKMAP", "%s:branch" % level, f.loc, "one branch for lock level %s" % level)
         if len(gb) != 1:
             continue
@@ -266,7 +270,7 @@ def lockmap(chk, P):
     chk.judge(len(cam) == 1, "LOCKMAP", "one-calcAllMethods", f.loc, "found %d" % len(cam))
     if len(cam) == 1:
         b, i, e = cam[0]
-        locked = branch_edges(f, lambda c: isinstance(c, list) and c[0] == "op" and c[1] == "!=" and var_of(c[2]) == "lockLevel" and "SimTK::Motion::NoLevel" in sx_enums(c[3]), 0)
+        locked = branch_edges(f, lambda c: isinstance(c, list) and c[0] == "op" and c[1] == "!=" and var_of(c[2]) in LL and "SimTK::Motion::NoLevel" in sx_enums(c[3]), 0)
         p = f.path_exists(None, lambda q: q is e, lambda q: False, avoid_edges={(bb, f.blocks[bb]["succ"][1]) for bb, _ in locked}) if locked else ()
         chk.judge(bool(locked) and p is None, "LOCKMAP", "lock-overrides-Motion", "%s:%d" % (f.file, e["line"]), "the Motion is consulted only when the mobilizer is not locked")
         e1 = implied_edges(f, [lambda c: isinstance(c, list) and c[0] == "call" and c[1].endswith("::hasMotion")])
@@ -285,7 +289,7 @@ def lockmap(chk, P):
         chk.judge(all(got.get(k) == [v] for k, v in want.items()), "LOCKMAP", "calcAllMethods:outputs", g.loc, "outputs %s (expected %s)" % (got, want))
     # Ground / weld
     gw = implied_edges(f, [lambda c: isinstance(c, list) and c[0] in ("op", "opc") and c[1] == "==" and bool(sx_find(c, lambda y: y[0] == "gvar" and _last(y[1]) == "GroundIndex")),
-                           lambda c: isinstance(c, list) and c[0] == "op" and c[1] == "==" and var_of(c[2]) == "nq" and isinstance(c[3], list) and c[3][0] == "lit" and c[3][1] == "0"])
+                           lambda c: isinstance(c, list) and c[0] == "op" and c[1] == "==" and var_of(c[2]) in NQ and isinstance(c[3], list) and c[3][0] == "lit" and c[3][1] == "0"])
     got = set()
     for b, i, e in asg:
         if only_via(f, b, gw):
@@ -328,7 +332,7 @@ def fill(chk, P):
             for y in sx_find(e["x"][3], lambda y: y[0] == "var"):
                 offs.add(y[1])
         base_vars = {v for v in offs if derives(v, lambda y: y[0] == "mem" and _last(y[2]) == FIRST[lvl])}
-        others = {v for v in offs if v not in base_vars and not v == "i"}
+        others = {v for v in offs if v not in base_vars and not (v in decls and isinstance(decls[v].get("init"), list) and decls[v]["init"] == ["lit", "0"])}
         chk.judge(bool(base_vars) and not others, "FILL", "%s:offset=%s" % (fname, FIRST[lvl]), f.loc,
                   "pool subscripts use %s; the offset must come from %s" % (sorted(offs), FIRST[lvl]))
         # lock branch
@@ -411,7 +415,7 @@ def apply_(chk, P):
                 chk.violation("APPLY", "%s:foreign-write:%s" % (fname, sx_str(e["lhs"])[:50]), "%s:%d" % (f.file, e["line"]), "unexpected indexed write %s" % sx_str(e["lhs"]))
                 continue
             ln = _last(lst[0][2])
-            iv = [y[1] for y in sx_find(e["lhs"][3], lambda y: y[0] == "var" and y[1] != "ic")]
+            iv = [y[1] for y in sx_find(e["lhs"][3], lambda y: y[0] == "var" and not (y[1] in decls and "SBInstanceCache" in str(decls[y[1]].get("ty", ""))))]
             site = "%s:%d" % (f.file, e["line"])
             if ln == "pres" + X:
                 ok = isinstance(e["rhs"], list) and e["rhs"][0] == "opc" and e["rhs"][1] == "[]" and bool(sx_find(e["rhs"][2], lambda y: y[0] == "mem" and y[2] == pool)) and \
@@ -477,12 +481,13 @@ def lockers(chk, P):
             okl = okl and [_last(x) for x in sx_enums(lv[0][2]["rhs"])] == ["NoLevel"]
             chk.judge(okl, "LOCK", "unlock:level<-NoLevel", f.loc, "unlock stores Motion::NoLevel for this mobilizer")
             continue
-        okl = okl and var_of(lv[0][2]["rhs"]) == "level" and f.path_exists(None, "exit", lambda q: q is lv[0][2]) is None
+        LV = {p_[0] for p_ in f.d.get("params", []) if "Motion::Level" in p_[1]}
+        okl = okl and var_of(lv[0][2]["rhs"]) in LV and f.path_exists(None, "exit", lambda q: q is lv[0][2]) is None
         chk.judge(okl, "LOCK", "%s:level-recorded" % fname, f.loc, "stores the requested level for this mobilizer on every path")
         dom = f.dominators()
         for level, (arr, src) in sorted(LOCK_WRITES.items()):
             def islevel(c):
-                return isinstance(c, list) and c[0] == "op" and c[1] == "==" and var_of(c[2]) == "level" and bool(sx_enums(c[3]))
+                return isinstance(c, list) and c[0] == "op" and c[1] == "==" and var_of(c[2]) in LV and bool(sx_enums(c[3]))
             edges = {(bb, tt) for bb, tt in implied_edges(f, [islevel]) if ("SimTK::Motion::" + level) in sx_enums(_full_cond(f, bb))}
             def haslocked(x):
                 return bool(x is not None and sx_find(x, lambda y: y[0] == "mem" and _last(y[2]).startswith("locked")))
